@@ -417,6 +417,10 @@ EDGE = {
         "dash_key2": "with an underscore",
         "a": {"b-c": {"d_e": "deep {{ x }}", "d-f": "$t(a.b-c.d_e, {\"x\": \"y\"})"}},
         "only_numbers": {"n": 1, "b": True, "f": 2.5},
+        # more than 32 alternatives in one value (a branch per day of the month, a fallback, interpolated)
+        "day_of_month": ["u8"] + [[f"day {d} of {{{{ month }}}}", d] for d in range(1, 34)] + [["some other day of {{ month }} ({{ count }})"]],
+        # exactly N alternatives for the sizes around the nesting limits of the generated `EitherOf` types
+        **{f"alt_{n}": ["u8"] + [[f"branch {d}", d] for d in range(1, n)] + [["fallback"]] for n in (15, 16, 17, 30, 31, 32, 33, 46, 47, 48, 49, 62, 63, 64, 65)},
         # line terminators of every kind inside a text
         "crlf": "Dear customer,\r\nyour order has shipped.\r\n",
         "lone_cr": "a\rb\n\rc\r",
